@@ -43,10 +43,10 @@ def run(ctx):
     models = B.model_side(cases)
     for (kind, v), m in zip(cases, models):
         opts = dict(wide=ctx.rng.random() < 0.25, vpstyle=ctx.rng.choice([0, 0, 1]),
-                    prov=ctx.rng.choice(A.PROVENANCES) if ctx.rng.random() < 0.2 else None)
+                    prov=ctx.rng.choice(A.PROVENANCES) if ctx.rng.random() < 0.2 else None, scalars=ctx.rng.choice([None, None, "np", "py"]))
         r = B.real_side(kind, v, **opts)
         ctx.case((kind, v), nontrivial=A.nontrivial(kind, v), sample=dict(kind=kind, v=v) if len(repr(v)) < 700 else None,
-                 tags=B.shape_tags(kind, v) + (["f64-input"] if opts["wide"] else []) + ([f"prov={opts['prov']}"] if opts["prov"] else []))
+                 tags=B.shape_tags(kind, v) + (["f64-input"] if opts["wide"] else []) + ([f"prov={opts['prov']}"] if opts["prov"] else []) + ([f"scalars={opts['scalars']}"] if opts.get("scalars") else []))
         judge(ctx, kind, v, opts, r, m)
     life_cycles(ctx, judge, ctx.n(350, 8000))
 
@@ -82,7 +82,7 @@ def replay(path):
     for it in (data.get("failures") or []) + (data.get("broken_correspondence") or []):
         rp = it["replay"]
         kind, v = rp["kind"], A.norm(rp["v"])
-        r = B.real_side(kind, v, wide=rp.get("wide", False), vpstyle=rp.get("vpstyle", 0), prov=rp.get("prov"))
+        r = B.real_side(kind, v, wide=rp.get("wide", False), vpstyle=rp.get("vpstyle", 0), prov=rp.get("prov"), scalars=rp.get("scalars"))
         ok = "exc" not in r and r["dec_abs"] == v and r["reenc"] == r["enc"]
         print(kind, "->", "round trip holds" if ok else f"round trip FAILS ({r.get('exc', 'values differ')})")
         rc |= 0 if ok else 1
